@@ -3,9 +3,9 @@ package main
 import (
 	"fmt"
 	"math"
-	"strings"
 	"math/rand/v2"
 	"reflect"
+	"strings"
 	"time"
 
 	abci "github.com/cometbft/cometbft/abci/types"
@@ -259,7 +259,7 @@ func (c *checker) resultsBytes(t resTarget, stream uint64, coreStride int) {
 	}
 	c.forEachByteMutantSel(stream, t.orig.Meta, sel, func(bc byteCase) {
 		lab := labels[min(bc.off, len(labels)-1)]
-		coreToo := coreStride > 0 && (bc.off%coreStride == int(uint64(c.r.Seed)%uint64(coreStride)))
+		coreToo := coreStride > 0 && ((bc.off+bc.off/8)%coreStride == int(uint64(c.r.Seed)%uint64(coreStride)))
 		data := bc.data
 		if coreToo {
 			data = clone(data)
@@ -348,7 +348,7 @@ type valTarget struct {
 	name  string
 	orig  *consensusAPI.Validators
 	lb    *cmttypes.LightBlock // header at orig.Height-1 (its NextValidatorsHash binds the set)
-	rigs  chan *rig           // nil: export level only
+	rigs  chan *rig            // nil: export level only
 	askAt int64
 }
 
@@ -501,7 +501,7 @@ func (c *checker) validatorsBytes(t valTarget, stream uint64, coreStride int) {
 	labels := labelProto(t.orig.Meta, "meta", schemaValidatorSet)
 	c.forEachByteMutant(stream, t.orig.Meta, func(bc byteCase) {
 		lab := labels[min(bc.off, len(labels)-1)]
-		coreToo := coreStride > 0 && (bc.off%coreStride == int(uint64(c.r.Seed)%uint64(coreStride)))
+		coreToo := coreStride > 0 && ((bc.off+bc.off/8)%coreStride == int(uint64(c.r.Seed)%uint64(coreStride)))
 		data := bc.data
 		if coreToo {
 			data = clone(data)
